@@ -71,7 +71,7 @@ def gen_docs(prop, seed, n, profile="F", replay=None, max_depth=3, features=None
             used = used + ["defaults"]
         out.append(("d%04d" % i, doc, used))
     # recursive reference graphs (same builder as C07): optional / nullable / tuple / array / map cycles
-    if profile == "F":
+    if profile in ("F", "C05"):
         from . import c07
         for i in range(max(6, n // 6)):
             r = util.rng(seed, prop, "graph", i)
@@ -121,7 +121,7 @@ def count_ingest(rep, results):
 
 def faithful_run(prop, rep, docs, seed, n_inst=10, want_invalid=True, settings_fn=None,
                  n_mut=8, probe_ops=("de",), name="main", extra_probe_fn=None, want_builder=False,
-                 undeclared=True, string_mutants=0, alt_doc_fn=None, skip_mutants=()):
+                 undeclared=True, string_mutants=0, alt_doc_fn=None, skip_mutants=(), case_probe_fn=None):
     """docs -> vgen -> stage-2 -> 'de' probes with oracle classification."""
     fr = FaithfulRun()
     cases = []
@@ -160,6 +160,11 @@ def faithful_run(prop, rep, docs, seed, n_inst=10, want_invalid=True, settings_f
         alt = oracle.Oracle(alt_doc_fn(doc)) if alt_doc_fn else None
         defs = doc.get("definitions", {})
         info = run.info.get(cid, {})
+        if case_probe_fn:
+            for p_ in case_probe_fn(cid, res, info, util.rng(seed, prop, "caseprobe", cid)):
+                pid += 1
+                p_["pid"] = pid
+                fr.probes.append(p_)
         for dname, dschema in defs.items():
             d = (res.get("defs") or {}).get(dname) or {}
             tname = norm(d.get("name") or "")
